@@ -20,6 +20,7 @@ type Opts struct {
 	ObjRefs      bool
 	ClassExprs   bool
 	Switch       bool
+	MultiLineFrags bool // Go fragments containing a newline (finding C07/multiline)
 }
 
 type G struct {
@@ -90,7 +91,7 @@ func (g *G) attrs(n *Node) {
 	for i := 0; i < k; i++ {
 		a := Attr{Name: names[i], ValQuote: '"'}
 		if g.chance(6) {
-			a.Name = g.pick("@click", ":disabled", "x-on:y", "a b")
+			a.Name = []string{"@click", ":disabled", "x-on:y", "a b"}[i]
 			a.QuoteCh = '"'
 			if g.chance(3) {
 				a.QuoteCh = '`'
@@ -109,6 +110,9 @@ func (g *G) attrs(n *Node) {
 		case 1:
 			a.Kind = ADynamic
 			a.Expr = g.strFrag()
+			if g.O.MultiLineFrags && g.chance(3) {
+				a.Expr = "f2(s0,\n\t\t\t\ts1)"
+			}
 		case 2:
 			a.Kind = ADynamic
 			a.Expr, a.Verb = "n0", "%d"
@@ -192,6 +196,10 @@ func (g *G) Block(depth int) []*Node {
 			e := g.elemHead()
 			if g.R.Intn(4) > 0 {
 				e.Inline = g.inline()
+				if e.NukeInner || e.NukeOuter {
+					// after a whitespace marker the lexer accepts `=`, `/` and text, but not `!` (undocumented corner)
+					e.Inline.Unescaped = false
+				}
 			}
 			out = append(out, e)
 		case 1:
